@@ -312,6 +312,10 @@ fn run_inner(p: &Params) -> Run {
         if v.is_empty() { continue; }
         case_tokens(&mut run, v, "tok-soup", "token soup");
     }
+    // --- `f64::from_str` as computed by the Lean model (Model/DecFloat.lean) against the real one, on generated number texts
+    let before = run.cases.len();
+    crate::f64cases::stream(&mut run, &mut Rng::new(p.seed ^ 0xF64), p.n(1500, 40_000));
+    run.notes.push(format!("f64parse cases (Lean parseF64 vs str::parse::<f64>): {}", run.cases.len() - before));
     run.notes.push(format!("texts checked by the oracle: {}; pstmt cases: {}", run.oracle_checks, run.cases.len()));
     let _ = hexs;
     run
